@@ -92,6 +92,14 @@ Theorem C14_source_registry_remove : ltac:(let t := type of SrcTie6P.ContextInst
 Proof. exact SrcTie6P.ContextInstances_remove_tie. Qed.
 
 
+(* ---- source tie, seventh wave: ContextInstances::update (the loop over groups; an exclusive group updates every (entity, instance)
+   with its own entity, a shared one its single instance with all holders) regenerated from src/input_context.rs equals
+   Model/Registry.reg_update (registry, events, consumed set), given that the opaque instance update behaves like the model's ---- *)
+From BEI Require Proofs.SrcTie7P.
+Theorem C14_source_registry_update : ltac:(let t := type of SrcTie7P.ContextInstances_update_tie in exact t).
+Proof. exact SrcTie7P.ContextInstances_update_tie. Qed.
+
+
 Print Assumptions C14_each_holder_once.
 Print Assumptions C14_identical_payload.
 Print Assumptions C14_recipients.
@@ -158,3 +166,4 @@ Print Assumptions C14_app_judgement_sound_consuming.
 Print Assumptions C14_app_judgement_sound_all.
 Print Assumptions C14_source_registry_get.
 Print Assumptions C14_source_registry_remove.
+Print Assumptions C14_source_registry_update.
